@@ -43,7 +43,8 @@ ASSUMPTIONS = [
 ]
 COMPONENTS = {"real": ["atomica Model / Population / Project.run_sim / Result / Scenario / Project.save/load", "pickle, copy.deepcopy, sciris dcp/saveobj/loadobj"], "stub": ["scheduler only: real threads parked/released one at a time (atomsim.baton)"]}
 
-VARIANTS = ["plain", "progs", "budget", "coverage", "yfactors_dt", "parscen", "saved_init"]
+VARIANTS = ["plain", "progs", "budget", "coverage", "yfactors_dt", "parscen", "saved_init", "offgrid_end"]
+PRIVATE_SETTINGS = ("yfactors_dt", "offgrid_end")  # variants that change the project's settings: their project object is never shared
 PROJECTS = ["udt", "usdt", "tb_simple", "udt_dyn", "hiv", "hypertension", "dt", "service", "timed_test", "uncertainty", "tb_simple_dyn", "hiv_dyn", "hypertension_dyn", "diabetes", "cervicalcancer", "timed_transfer", "timed_transfer_2", "timed_eligibility", "timed_indirect", "timed_indirect2", "derivative", "par_min_max", "no_compartment", "tb", "timed_tb", "legacy_scen", "legacy_nores"]
 HEAVY = {"tb", "timed_tb", "legacy_scen", "legacy_nores"}
 TEMPLATES = [
@@ -80,7 +81,7 @@ def budget(tier):
 def variants_for(entry):
     if entry.meta["has_progset"]:
         return list(VARIANTS)
-    return ["plain", "yfactors_dt", "parscen", "saved_init"]
+    return ["plain", "yfactors_dt", "parscen", "saved_init", "offgrid_end"]
 
 
 def make_config(at, P, variant):
@@ -121,6 +122,14 @@ def make_config(at, P, variant):
             for src, par in parset.transfers[name].items():
                 par.meta_y_factor = 0.9
         P.settings.update_time_vector(dt=0.5)
+    elif variant == "offgrid_end":
+        # a legal settings state: step 0.3 and the start moved afterwards, so the end year is not a whole number of
+        # steps after the start (the time vector then spans start..end with the nearest number of points)
+        P.settings.update_time_vector(dt=0.3)
+        P.settings.update_time_vector(start=start + 1)
+        if P.progsets and len(P.progsets):
+            progset = P.progsets[0]
+            instr = at.ProgramInstructions(start_year=start + 2)
     elif variant == "parscen":
         target = None
         # prefer a FUNCTION parameter (the overwrite then carries a skip_function window into the model), else a data parameter
@@ -263,7 +272,7 @@ def run(ch, idx, tier):
         vs = [v for v in variants_for(entry) if not _REF.get(f"{name}/{v}", "ERROR").startswith("ERROR")]
         variant = vs[ch.choose(f"client[{k}].variant", len(vs))]
         tpl = list(TEMPLATES[ch.choose(f"client[{k}].template", len(TEMPLATES))])
-        share = variant != "yfactors_dt" and name in shared_projects and ch.flip(f"client[{k}].share_project", 0.5)
+        share = variant not in PRIVATE_SETTINGS and name in shared_projects and ch.flip(f"client[{k}].share_project", 0.5)
         if "caller_edits_inputs" in tpl:
             P = entry.project()  # a client that will edit its settings / data later owns its project
         elif share:
@@ -271,7 +280,7 @@ def run(ch, idx, tier):
             bump("probe:clients_share_project_object")
         else:
             P = entry.project()
-            if variant != "yfactors_dt":
+            if variant not in PRIVATE_SETTINGS:
                 shared_projects.setdefault(name, P)
         parset, progset, instr, scen = make_config(at, P, variant)
         if "caller_edits_inputs" in tpl:
